@@ -180,15 +180,28 @@ func applyStep(root, dbdir string, cfg complib.Cfg, st *stepJ, before complib.Du
 		if err := complib.WriteFile(bpath, hlib.Unints(st.NewFile), serial); err != nil {
 			return nil, err
 		}
-		fdir := filepath.Join(root, fmt.Sprintf("fresh%d", stepNo))
-		builder := st.FreshBy == "builder"
-		if err := compile(bpath, fdir, cfg.V2, builder); err != nil {
-			return nil, fmt.Errorf("fresh compilation of B failed: %w", err)
-		}
-		fresh, derr := complib.DumpRDB(fdir)
-		os.RemoveAll(fdir)
-		if derr != nil {
-			return nil, derr
+		var fresh complib.Dump
+		if st.FreshBy == "codec" {
+			// the database of B as the line-by-line codec gives it (C07 ties the compilers to it)
+			ref, rerr := complib.Refer(cfg, complib.EffectiveLines(hlib.Unints(st.NewFile)))
+			if rerr != nil {
+				return nil, rerr
+			}
+			if !ref.AllOk {
+				return nil, fmt.Errorf("file B has a rejected line")
+			}
+			fresh = complib.FromRecords(ref.Records())
+		} else {
+			fdir := filepath.Join(root, fmt.Sprintf("fresh%d", stepNo))
+			if err := compile(bpath, fdir, cfg.V2, st.FreshBy == "builder"); err != nil {
+				return nil, fmt.Errorf("fresh compilation of B failed: %w", err)
+			}
+			var derr error
+			fresh, derr = complib.DumpRDB(fdir)
+			os.RemoveAll(fdir)
+			if derr != nil {
+				return nil, derr
+			}
 		}
 		st.Fresh = fresh.JSON()
 		st.GoSame, _ = complib.SameMultiset(after, fresh)
@@ -393,6 +406,7 @@ func genCase(seed uint64, idx int) (*c08case, error) {
 	}
 	c := &c08case{Kind: "diff", Class: "chain", Cfg: []string{"v1", "v2"}[idx%2], Builder: idx%8 == 1, FileA: hlib.Ints(cur)}
 	nsteps := 1 + r.Intn(5)
+	freshDone := false
 	for s := 0; s < nsteps; s++ {
 		if r.Chance(1, 4) {
 			intent, d := failingDiff(w, cur)
@@ -423,13 +437,188 @@ func genCase(seed uint64, idx int) (*c08case, error) {
 			intent += "+cancel"
 		}
 		d = withNoise(r, d)
-		fb := "batches"
-		if idx%8 == 5 && s == 0 {
-			fb = "builder"
+		fb := "codec"
+		if !freshDone {
+			fb = "batches"
+			if idx%8 == 5 {
+				fb = "builder"
+			}
+			freshDone = true
 		}
 		c.Steps = append(c.Steps, stepJ{Diff: hlib.Ints(complib.Join(d, r.Chance(3, 4))), NewFile: hlib.Ints(next), Intent: intent, ExpectOk: true, FreshBy: fb})
 		cur = next
 	}
+	return c, nil
+}
+
+// genShape: one step on a small file with a key that holds several values; the diff has a
+// chosen shape (removals only, additions only, both, a key emptied, one of two equal values
+// removed, a failing removal) and a chosen order of lines: the lines of one key separated by a
+// line of another key (and that reversed), sorted, or shuffled.
+func genShape(seed uint64, idx int) (*c08case, error) {
+	r := hlib.NewRng(seed, uint64(500000+idx))
+	g := complib.NewGen(r, 1+r.Intn(2), 1+r.Intn(3))
+	zone := g.Zones[0]
+	hot := []string{"multi." + zone, "m2." + zone}[r.Intn(2)]
+	other := []string{"other." + zone, "a." + zone, "zz." + zone}
+	lo := []string{"", "", "\\000\\001"}[r.Intn(3)]
+	mk := func(owner string, n int) string {
+		if n%5 == 4 {
+			return fmt.Sprintf("+%s,2001:db8::%x,,,%s", owner, n, lo)
+		}
+		return fmt.Sprintf("+%s,10.0.0.%d,,,%s", owner, n, lo)
+	}
+	var base []string
+	for k := r.Intn(4); k > 0; k-- {
+		base = append(base, g.Line())
+	}
+	nh := 2 + r.Intn(4)
+	var hotOld, othOld []string
+	for i := 0; i < nh; i++ {
+		hotOld = append(hotOld, mk(hot, 1+i))
+	}
+	if r.Chance(1, 3) {
+		hotOld = append(hotOld, hotOld[0]) // two equal values
+	}
+	for i, o := range other[:1+r.Intn(3)] {
+		othOld = append(othOld, mk(o, 20+i))
+	}
+	nets := map[string]string{}
+	if r.Chance(1, 3) {
+		nets["ec|10.0.0.0/8"] = "ab"
+		nets["ec|10.1.0.0/16"] = "zz"
+	}
+	file := func(hotL, othL []string, nets map[string]string) ([]byte, error) {
+		w := &world{g: g, r: r, lines: append(append(append([]string{}, base...), hotL...), othL...), nets: nets}
+		return complib.Preprocess(w.raw(), serial)
+	}
+	cur, err := file(hotOld, othOld, nets)
+	if err != nil {
+		return nil, err
+	}
+	shape := []string{"del-only", "add-only", "mixed", "empty-key", "del-one-of-equal", "del-absent"}[r.Pick([]int{4, 3, 3, 2, 2, 1})]
+	hotNew, othNew := append([]string{}, hotOld...), append([]string{}, othOld...)
+	var dHot, dOth []string // diff lines of the hot key and of the other keys
+	delHot := func(i int) {
+		dHot = append(dHot, "-"+hotNew[i])
+		hotNew = append(hotNew[:i], hotNew[i+1:]...)
+	}
+	addHot := func(n int) {
+		l := mk(hot, n)
+		dHot = append(dHot, "+"+l)
+		hotNew = append(hotNew, l)
+	}
+	expect := true
+	switch shape {
+	case "del-only":
+		for k := 2 + r.Intn(2); k > 0 && len(hotNew) > 0; k-- {
+			delHot(r.Intn(len(hotNew)))
+		}
+		dOth = append(dOth, "-"+othNew[0])
+		othNew = othNew[1:]
+	case "add-only":
+		for k := 2 + r.Intn(2); k > 0; k-- {
+			addHot(40 + k)
+		}
+		l := mk("new."+zone, 60)
+		dOth = append(dOth, "+"+l)
+		othNew = append(othNew, l)
+	case "mixed":
+		delHot(r.Intn(len(hotNew)))
+		addHot(50)
+		if len(hotNew) > 1 {
+			delHot(0)
+		}
+		addHot(51)
+		l := mk(other[0], 70)
+		dOth = append(dOth, "-"+othNew[0], "+"+l)
+		othNew = append(othNew[1:], l)
+	case "empty-key":
+		for len(hotNew) > 0 {
+			delHot(0)
+		}
+		l := mk("new."+zone, 61)
+		dOth = append(dOth, "+"+l)
+		othNew = append(othNew, l)
+	case "del-one-of-equal":
+		if len(hotNew) == nh {
+			hotOld = append(hotOld, hotOld[0])
+			hotNew = append(hotNew, hotNew[0])
+			if cur, err = file(hotOld, othOld, nets); err != nil {
+				return nil, err
+			}
+		}
+		delHot(0) // hotNew[0] occurs twice; one copy stays
+		dOth = append(dOth, "-"+othNew[0])
+		othNew = othNew[1:]
+	case "del-absent":
+		delHot(0)
+		dHot = append(dHot, "-"+mk(hot, 99))
+		dOth = append(dOth, "-"+othNew[0])
+		expect = false
+	}
+	netsNew := nets
+	if len(nets) > 0 && expect && r.Chance(1, 2) {
+		netsNew = map[string]string{"ec|10.0.0.0/8": "zz", "ec|10.2.0.0/16": "ab"}
+	}
+	next := cur
+	var d []string
+	if expect {
+		if next, err = file(hotNew, othNew, netsNew); err != nil {
+			return nil, err
+		}
+		// range point lines and whatever else changed
+		want := map[string]bool{}
+		for _, l := range append(append([]string{}, dHot...), dOth...) {
+			want[l] = true
+		}
+		for _, l := range lineDiff(cur, next) {
+			if !want[l] {
+				dOth = append(dOth, l)
+			}
+		}
+	}
+	order := []string{"interleaved", "reversed", "sorted", "shuffled"}[r.Intn(4)]
+	switch order {
+	case "interleaved", "reversed":
+		// hot, other, hot, other, ... so that two lines of the hot key are never adjacent while others last
+		i, j := 0, 0
+		for i < len(dHot) || j < len(dOth) {
+			if i < len(dHot) {
+				d = append(d, dHot[i])
+				i++
+			}
+			if j < len(dOth) {
+				d = append(d, dOth[j])
+				j++
+			}
+		}
+		if order == "reversed" {
+			for a, b := 0, len(d)-1; a < b; a, b = a+1, b-1 {
+				d[a], d[b] = d[b], d[a]
+			}
+		}
+	case "sorted":
+		d = append(append(d, dHot...), dOth...)
+		sort.Strings(d)
+	default:
+		d = shuffled(r, append(append(d, dHot...), dOth...))
+	}
+	if expect {
+		// the diff must be exactly the line diff, as a multiset
+		a, b := append([]string{}, d...), lineDiff(cur, next)
+		sort.Strings(a)
+		sort.Strings(b)
+		if strings.Join(a, "\n") != strings.Join(b, "\n") {
+			return nil, fmt.Errorf("shape %s: generated diff is not the line diff:\n%s\n--\n%s", shape, strings.Join(a, "\n"), strings.Join(b, "\n"))
+		}
+	}
+	c := &c08case{Kind: "diff", Class: "shape:" + shape + ":" + order, Cfg: []string{"v1", "v2"}[idx%2], FileA: hlib.Ints(cur)}
+	fb := "codec"
+	if idx%6 == 0 {
+		fb = "batches"
+	}
+	c.Steps = []stepJ{{Diff: hlib.Ints(complib.Join(d, true)), NewFile: hlib.Ints(next), Intent: shape, ExpectOk: expect, FreshBy: fb}}
 	return c, nil
 }
 
@@ -459,7 +648,13 @@ func run(a *hlib.Args, e *hlib.Emitter) error {
 		}
 	} else {
 		for i := 0; i < a.N; i++ {
-			c, err := genCase(a.Seed, i)
+			var c *c08case
+			var err error
+			if i%5 == 0 {
+				c, err = genCase(a.Seed, i/5)
+			} else {
+				c, err = genShape(a.Seed, i)
+			}
 			if err != nil {
 				return err
 			}
@@ -468,7 +663,7 @@ func run(a *hlib.Args, e *hlib.Emitter) error {
 	}
 	errs := make([]error, len(cases))
 	var wg sync.WaitGroup
-	sem := make(chan struct{}, 4)
+	sem := make(chan struct{}, 8)
 	for i, c := range cases {
 		wg.Add(1)
 		go func(i int, c *c08case) {
